@@ -23,6 +23,7 @@ theorem okExpr_mono {L : Lang} {σ σ' : Store} (h : σ.vars.length ≤ σ'.vars
     unfold okExpr at he ⊢
     simp only [Bool.and_eq_true] at he ⊢
     exact ⟨⟨okExpr_mono h f he.1.1, okExpr_mono h x he.1.2⟩, okTerm_mono h t he.2⟩
+  | .shared _ e, he => by unfold okExpr at he ⊢; exact okExpr_mono h e he
 
 theorem okExpr_ty {L : Lang} {σ : Store} : ∀ e, okExpr L σ e = true → okTerm L σ e.ty = true
   | .src _ _ t, he => by unfold okExpr at he; exact he
@@ -31,6 +32,7 @@ theorem okExpr_ty {L : Lang} {σ : Store} : ∀ e, okExpr L σ e = true → okTe
     unfold okExpr at he
     simp only [Bool.and_eq_true] at he
     exact he.2
+  | .shared _ e, he => by unfold okExpr at he; exact okExpr_ty e he
 
 theorem _root_.Tfv.TypedIn.mono {L : Lang} {σ σ' : Store} {e : TExpr} (s : Step L σ σ') (h : TypedIn L σ e) :
     TypedIn L σ' e :=
@@ -45,6 +47,7 @@ theorem wellTyped_sub {L : Lang} {ρ : Val} {a e : TExpr} (hs : SubExpr a e) :
   | refl => exact id
   | fn _ ih => intro h; unfold WellTyped at h; exact ih h.1
   | arg _ ih => intro h; unfold WellTyped at h; exact ih h.2.1
+  | shared _ ih => intro h; unfold WellTyped at h; exact ih h
 
 /-- the specification unfolded at an arbitrary application node of the tree -/
 theorem every_node {L : Lang} {σ : Store} {e f x : TExpr} {t : Term} (h : TypedIn L σ e)
@@ -65,6 +68,13 @@ theorem typedIn_src {L : Lang} {σ : Store} {i : Nat} {l : Option String} {t : T
 theorem typedIn_op {L : Lang} {σ : Store} {n : String} {t : Term}
     (h : okTerm L σ t = true) : TypedIn L σ (.op n t) :=
   ⟨by unfold okExpr; exact h, fun _ _ => by unfold WellTyped; trivial⟩
+
+/-- a shared expression object is transparent for typing -/
+theorem typedIn_shared {L : Lang} {σ : Store} {k : Nat} {e : TExpr} :
+    TypedIn L σ (.shared k e) ↔ TypedIn L σ e :=
+  ⟨fun h => ⟨by have := h.ok; unfold okExpr at this; exact this,
+             fun ρ hρ => by have := h.wt ρ hρ; unfold WellTyped at this; exact this⟩,
+   fun h => ⟨by unfold okExpr; exact h.ok, fun ρ hρ => by unfold WellTyped; exact h.wt ρ hρ⟩⟩
 
 theorem step_of_parts {L : Lang} {σ σ' : Store} (h1 : OkStore L σ') (h2 : NoConstraints σ')
     (h3 : σ.vars.length ≤ σ'.vars.length) (h4 : ∀ ρ, Sat L ρ σ' → Sat L ρ σ) : Step L σ σ' :=
@@ -156,6 +166,7 @@ theorem typedIn_annotated {L : Lang} {σ : Store} {previous : TExpr} {t : Term} 
     | src i l t0 => exact typedIn_src ht
     | op n t0 => simp [TExpr.isSource] at hc
     | app f x t0 => simp [TExpr.isSource] at hc
+    | shared k e0 => simp [TExpr.isSource] at hc
   · exact hp
 
 /-- `: T`: the state stays good, the annotated tree is typed in the new store, and its type is a
@@ -365,11 +376,25 @@ theorem fixExprCore_typed {L : Lang} (wf : WF L) : ∀ (e : TExpr) (σ σ' : Sto
             refine ⟨(tf1.mono (st2.trans st3)).wt ρ hρ, (tx1.mono st3).wt ρ hρ, ?_⟩
             rw [df1 ρ hρ1, dx1 ρ hρ2, hden ρ hρ]
             exact hw.2.2
+  | .shared k e, σ, σ', e', g, ht, h => by
+    unfold fixExprCore at h
+    split at h
+    · cases h
+    · rename_i σ1 e1 he
+      cases h
+      have te : TypedIn L σ e :=
+        ⟨by have := ht.ok; unfold okExpr at this; exact this,
+         fun ρ hρ => by have := ht.wt ρ hρ; unfold WellTyped at this; exact this⟩
+      obtain ⟨st, t1, d1⟩ := fixExprCore_typed wf e σ σ' e1 g te he
+      exact ⟨st, ⟨by unfold okExpr; exact t1.ok, fun ρ hρ => by unfold WellTyped; exact t1.wt ρ hρ⟩, d1⟩
 
 theorem normExpr_ty (σ : Store) : ∀ e, (normExpr σ e).ty = normT σ e.ty
   | .src _ _ _ => rfl
   | .op _ _ => rfl
   | .app _ _ _ => rfl
+  | .shared _ e => by
+    show (normExpr σ e).ty = normT σ e.ty
+    exact normExpr_ty σ e
 
 theorem okExpr_normExpr {L : Lang} {σ : Store} (ok : OkStore L σ) :
     ∀ e, okExpr L σ e = true → okExpr L σ (normExpr σ e) = true
@@ -381,6 +406,10 @@ theorem okExpr_normExpr {L : Lang} {σ : Store} (ok : OkStore L σ) :
     unfold normExpr okExpr
     simp only [Bool.and_eq_true]
     exact ⟨⟨okExpr_normExpr ok f he.1.1, okExpr_normExpr ok x he.1.2⟩, okTerm_normT ok he.2⟩
+  | .shared _ e, he => by
+    unfold okExpr at he
+    unfold normExpr okExpr
+    exact okExpr_normExpr ok e he
 
 theorem wellTyped_normExpr {L : Lang} {ρ : Val} {σ : Store} (hρ : Sat L ρ σ) :
     ∀ e, WellTyped L ρ e → WellTyped L ρ (normExpr σ e)
@@ -392,6 +421,10 @@ theorem wellTyped_normExpr {L : Lang} {ρ : Val} {σ : Store} (hρ : Sat L ρ σ
     refine ⟨wellTyped_normExpr hρ f h.1, wellTyped_normExpr hρ x h.2.1, ?_⟩
     rw [normExpr_ty, normExpr_ty, den_normT hρ, den_normT hρ, den_normT hρ]
     exact h.2.2
+  | .shared _ e, h => by
+    unfold WellTyped at h
+    unfold normExpr WellTyped
+    exact wellTyped_normExpr hρ e h
 
 /-- normalising every node type against the store the tree is typed in keeps it typed, and every
 node type keeps its meaning -/
